@@ -164,8 +164,14 @@ def bombs(quick=False):
         out.append(b"\xc1" * n + b"\x01")
         out.append(b"\xbf" + b"\x00\x9f" * (n // 2))
         out.append(b"\x5f" + b"\x40" * n + b"\xff")
+    for n in ((150000,) if quick else (100000, 3000000)):
+        out.append(b"\x5f" * n); out.append(b"\x7f" * n)             # string starts nested as deep as the input is long
+        out.append(b"\x5f" * n + b"\xff" * n); out.append(b"\x7f" * n + b"\x60" + b"\xff" * n)
     hdr = bytes.fromhex("8365432d444e53")
     out += [hdr + b for b in out[:6]] + [hdr + b"\xa0" + b for b in out[:6]]
+    out += [hdr + b for b in out[10:14]] + [hdr + b"\xa1\x18\x63" + b for b in out[10:14]]
+    # files that hold a valid preamble and no block at all (definite and indefinite block array)
+    out.append(VALID_HEAD[:-1] + b"\x80"); out.append(VALID_HEAD + b"\xff")
     # skip_item reached through an unknown preamble key
     deep = 250000 if quick else 4000000
     for opener, closer in ((b"\x81", b"\x01"), (b"\x9f", b""), (b"\xc1", b"\x00"), (b"\xa1\x00", b"\x00"), (b"\xbf\x00", b""),
@@ -191,9 +197,15 @@ def run_tools(tools, files, seen, run, quick):
     """each tool on each file as a subprocess; a signal, sanitizer report or timeout is a failure"""
     env = dict(os.environ); env.update(vlib.SAN_ENV)
     jobs = []
-    for path in files:
+    for fi, path in enumerate(files):
         for t in ("cdns-blocks", "cdns-items", "cdns-itemcount", "cdns-preamble"):
             jobs.append((t, [path]))
+        # every option of every tool (on every third file in the quick tier)
+        if not quick or fi % 3 == 0 or fi < 40:
+            jobs += [("cdns-preamble", ["-b", path]), ("cdns-itemcount", ["-b", path]), ("cdns-itemcount", ["-p", path]),
+                     ("cdns-itemcount", ["-b", "-p", path]), ("cdns-blocks", ["-n", "0", path]), ("cdns-blocks", ["-n", "1", path]),
+                     ("cdns-items", ["-q", path]), ("cdns-items", ["-a", path]), ("cdns-items", ["-m", path]),
+                     ("cdns-items", ["-n", "0", path]), ("cdns-items", ["-n", "1-3", path])]
         jobs.append(("cdns-merge", ["-o", path + ".out", path, path]))
     def one(j):
         t, args = j
